@@ -248,6 +248,25 @@ def generate(cfg="A", builddir=None, outpath=None):
         charclass = {n: f.result() for n, f in _futs.items()}
         charmap = {n: f.result() for n, f in _futm.items()}
 
+    # widths of the counters and indices the model treats as unbounded numbers
+    FIELDS = [("scpi_t", "output_count"), ("scpi_t", "input_count"), ("scpi_t", "arbitrary_remaining"), ("scpi_t", "buffer.length"),
+              ("scpi_t", "buffer.position"), ("scpi_fifo_t", "wr"), ("scpi_fifo_t", "rd"), ("scpi_fifo_t", "count"), ("scpi_fifo_t", "size"),
+              ("scpi_error_info_heap_t", "wr"), ("scpi_error_info_heap_t", "count"), ("scpi_error_info_heap_t", "size"),
+              ("scpi_token_t", "len"), ("lex_state_t", "len"), ("scpi_parser_state_t", "numberOfParameters"), ("scpi_error_t", "error_code")]
+    def field_width(st, fld):
+        os.makedirs(builddir, exist_ok=True)
+        exe = os.path.join(builddir, "dump_field_%s_%s" % (st, fld.replace(".", "_")))
+        cmd = ["gcc", "-O0", "-w", "-I" + INC, "-I" + SRC] + CFG_FLAGS[cfg] + ["-DSTRUCT=" + st, "-DFIELD=" + fld, os.path.join(HERE, "dump_fields.c"), "-o", exe]
+        r = subprocess.run(cmd, capture_output=True, text=True)
+        if r.returncode != 0: raise Fail("field %s.%s: dumper does not compile: %s" % (st, fld, r.stderr[-300:]))
+        r = subprocess.run([exe], capture_output=True, text=True, timeout=30)
+        f = r.stdout.split()
+        if r.returncode != 0 or len(f) != 4 or f[0] != "FIELD": raise Fail("field %s.%s: no output" % (st, fld))
+        return (int(f[2]) * 8, int(f[3]))
+    with _cf.ThreadPoolExecutor(max_workers=8) as _ex:
+        _futf = {(s, f): _ex.submit(lambda s=s, f=f: section("field-%s.%s" % (s, f), lambda: field_width(s, f), (0, 0))) for s, f in FIELDS}
+        fieldw = {k: v.result() for k, v in _futf.items()}
+
     L = []
     A = L.append
     A("/- GENERATED by translate/extract.py from %s (configuration %s). Do not edit. -/" % (REPO, cfg))
@@ -290,6 +309,9 @@ def generate(cfg="A", builddir=None, outpath=None):
         A("def cc_%s : Nat := 0x%x" % (n, charclass[n]))
     for n in CHAR_MAPS:
         A("def cm_%s : List Nat := [%s]" % (n, ", ".join(str(x) for x in charmap[n])))
+    A("\n/-- (width in bits, signed) of the counter and index fields of the library's structures, as compiled -/")
+    for (s, f) in FIELDS:
+        A("def fw_%s_%s : Nat × Bool := (%d, %s)" % ("ctx" if s == "scpi_t" else s.replace("scpi_", "").replace("_t", ""), f.replace(".", "_"), fieldw[(s, f)][0], "true" if fieldw[(s, f)][1] else "false"))
     A("\nend ScpiVerif.Gen")
     text = "\n".join(L) + "\n"
     old = read(outpath) if os.path.exists(outpath) else None
